@@ -104,7 +104,7 @@ def generator_bursts():
     return out, bad
 
 
-SND_SET = [("SETPOWER %d" % p, "SETTA %d" % ta) for p in (0, 10) for ta in (0, 1, 63, -1)]
+SND_SET = [("SETPOWER %d" % p, "SETTA %d" % ta) for p in (0, 10) for ta in (0, 1, 63, -1, 127)]
 TOA_SET = ["FAKE_TOA %d %d" % (b, t) for b in (-3, 0, 300) for t in (0, 2)]
 RSSI_SET = [None, "FAKE_RSSI -80 0", "FAKE_RSSI -80 3"]
 CI_SET = ["FAKE_CI %d %d" % (b, t) for b in (90, -10) for t in (0, 5)]
@@ -205,7 +205,7 @@ def run(ctx):
     c["generator_outputs_checked"] = len(gen)
     c["distinct_nontrivial"] = len(c["outcomes"]) if isinstance(c.get("outcomes"), set) else c.get("outcomes", 0)
     c["distinct_outcomes"] = c.pop("outcomes")
-    c["rule"] = ("complete product SETPOWER{0,10} x SETTA{0,1,63,-1} x FAKE_TOA x FAKE_RSSI{off,-80/0,-80/3} x FAKE_CI x versions(0/1)^2 x "
+    c["rule"] = ("complete product SETPOWER{0,10} x SETTA{0,1,63,-1,127} x FAKE_TOA x FAKE_RSSI{off,-80/0,-80/3} x FAKE_CI x versions(0/1)^2 x "
                  "window end {low,high}, each with %d representative bursts x attenuation {0,1,60}; the full burst set (%d bursts incl. the "
                  "generator's outputs and walking bits) at default settings for %d version pair(s); distinct_nontrivial = distinct decoded "
                  "(rssi, toa, ci, modulation, tsc, length) tuples observed" % (len(reps), len(full), len(fullv)))
